@@ -21,7 +21,8 @@ PATHS = ["", "/", "/pyro", "/pyro/", "/pyro/http.a", "/pyro/http.a/", "/pyro/htt
          "/pyro/xhttp.a/m", "/pyro/hidden.x/m", "/pyro/http.a/$meta", "/pyro/hidden.x/$meta", "/pyro/http.a/attr", "/pyro/http.a/secret", "/pyro/http.a/_private",
          "/pyro/http.a/_pyroRelease", "/pyro/http.a/_pyroBind", "/pyro/http.a/__class__", "/pyro/http.a/fail", "/pyro/http.a/ow", "/pyro/http.zz/m", "/other/x",
          "/pyro/http.a/M", "/pyro/http.a\n/m", "/pyro//m", "//pyro/http.a/m", "/pyro/http.a/no_such"]
-QUERIES = ["", "x=1", "x=1&y=b", "$key=" + KEY, "$key=WRONG", "x=1&$key=" + KEY, "x=1&x=2", "$key=%s&$key=%s" % (KEY, KEY), "x=", "$key="]
+QUERIES = ["", "x=1", "x=1&y=b", "$key=" + KEY, "$key=WRONG", "x=1&$key=" + KEY, "x=1&x=2", "$key=%s&$key=%s" % (KEY, KEY), "x=", "$key=",
+           "x=a;b", "x=1;y=2", "x=1;$key=" + KEY, "x=%3B&y=a+b"]
 KEYHDR = [None, "WRONG", KEY]
 OPTHDR = [None, "oneway"]
 CONFIGS = [(k, p) for k in (None, KEY) for p in (r"http\.", r"^http\.a$", "")]
